@@ -328,7 +328,9 @@ def c16_refs(state, cfg, case):
     onego = md.render(r + "\n" + d)
     # the one-go rendering also contains what R itself renders to (normally nothing)
     rr = md.render(r)
-    if rr + seeded != onego and seeded != onego:
+    # (the text of R itself may render differently in the one-go document - forward references to definitions of D -
+    #  the statement is about the output of D)
+    if rr + seeded != onego and seeded != onego and not onego.endswith(seeded):
         fails.append({"what": f"render(D, env seeded by R) != render(R + blank + D): {seeded[:80]!r} vs {onego[:80]!r}", "key": "C16/seed"})
     # a document consisting only of well-formed definitions renders to nothing, and each recorded map starts at a
     # line that opens a definition and the maps tile the document
@@ -372,7 +374,8 @@ def c16_form(state, cfg, case):
     ref = f"{bang}[{txt}][r]\n\n[r]: {dst}{' ' + ttl if ttl else ''}\n"
     a, b = md.render(inline), md.render(ref)
     fails = []
-    if a != b and ("<a " in a or "<img " in a):
+    whole = a.startswith("<p><a href=") and a.rstrip().endswith("</a></p>") or a.startswith("<p><img src=") and a.rstrip().endswith("/></p>")
+    if a != b and whole:
         fails.append({"what": f"reference form renders {b!r}, inline form {a!r}", "key": "C16/form"})
     return {"sig": (img, a[:40]), "fail": fails}
 
